@@ -61,6 +61,13 @@ func RunC16(s *kernel.Sim) *World {
 	}
 	st := w.Store
 	baseReqs := w.Svc.NumReqs()
+	if t.Bool(1, 3) {
+		// the cache fails some of the writes that follow (a lookup's flush,
+		// say): tolerated by the store, never a reason to fail a lookup
+		for i := 0; i < 3; i++ {
+			w.Cache.FailWrites[w.Cache.NumWrites()+t.Choice(4)] = true
+		}
+	}
 
 	// service script for the lookups
 	mode := t.Choice(4) // 0 healthy 1 mixed 2 hangs forever 3 slow
@@ -402,7 +409,33 @@ func RunC16(s *kernel.Sim) *World {
 		if len(rs) > 1 {
 			w.S.Probe("lookup-multi-request")
 		}
-		// (failure installs nothing)
+		// (failure installs nothing) judged by what the callers were told:
+		// if every caller that looked the name up got an error, the name
+		// must not have been installed
+		toldOK := false
+		for _, c := range callers {
+			if c.started && c.done && c.err == nil && c.panicked == nil && c.entry != 3 {
+				for _, cn := range c.names {
+					if cn == n {
+						toldOK = true
+					}
+				}
+			}
+			if c.entry == 2 && c.done && c.err != nil {
+				// Apply reports one joined error for several fields: a field
+				// may have succeeded
+				for _, cn := range c.names {
+					if cn == n && !strings.Contains(c.err.Error(), fmt.Sprintf("%q", n)) {
+						toldOK = true
+					}
+				}
+			}
+		}
+		if !toldOK && allDone() {
+			if h := st.Secret(n); h != nil {
+				w.Fail("failed-install", "every caller that looked up %q was told it failed, yet Secret(%q) is non-nil: a failed lookup installed the secret", n, n)
+			}
+		}
 		if !success && allDone() {
 			if h := st.Secret(n); h != nil {
 				w.Fail("failed-install", "every lookup of %q failed but Secret(%q) is non-nil", n, n)
@@ -429,6 +462,9 @@ func RunC16(s *kernel.Sim) *World {
 		}
 	}
 	if len(looked) > 0 {
+		w.Cache.mu.Lock()
+		w.Cache.FailWrites = map[int]bool{} // the cache is healthy again
+		w.Cache.mu.Unlock()
 		w.Svc.Script = map[string][]Outcome{}
 		w.Svc.Default = Outcome{}
 		for _, n := range looked {
